@@ -22,7 +22,7 @@ GIT_HANDLED = ("exit128", "exit1", "signal")
 GIT_UNHANDLED = ("enoent", "eacces", "badbytes")
 STRAY = ("README", "meters.hh~", ".meters.hh.swp", "BUILD.bazel", "notes.txt", "backup.d", "#feet.hh#", "units.hh.orig")
 VERSION_IDS = ("0.4.1", "0.4.1-12-gdeadbee-dirty", "sim build 7", "x")
-OPEN_ERRNOS = ("ENOENT", "EACCES", "EMFILE", "EIO")
+OPEN_ERRNOS = ("ENOENT", "ENOENT", "EACCES", "EMFILE", "EIO")
 WRITE_ERRNOS = ("EPIPE", "ENOSPC", "EIO", "EAGAIN")
 UNITS_DIR = "au/code/au/units"
 CONSTANTS_DIR = "au/code/au/constants"
@@ -159,7 +159,11 @@ def faulty_variants(plan, seed, m):
                 k = rng.choice(kinds)
                 if k == "open":
                     nth = rng.choice((0, -1, rng.randrange(1000)))
-                    faults.append({"op": "open", "nth": nth, "errno": rng.choice(OPEN_ERRNOS)})
+                    f = {"op": "open", "nth": nth, "errno": rng.choice(OPEN_ERRNOS)}
+                    if f["errno"] == "ENOENT":
+                        # missing from the start, or vanishing after it has been looked at once
+                        f["from_access"] = rng.choice((0, 0, 1))
+                    faults.append(f)
                 elif k == "read":
                     nth = rng.choice((0, -1, rng.randrange(1000)))
                     faults.append({"op": "read", "nth": nth, "permille": rng.choice((0, 500, 999, rng.randrange(1000))), "errno": "EIO"})
@@ -217,4 +221,124 @@ def spine(tree, seed):
             base({"units": [], "constants": [c], "io": io, "main_files": []})
         for h in tree.public_headers:
             base({"units": [], "constants": [], "io": io, "main_files": [h]})
+    return plans
+
+
+# ------------------------------------------------------------------------------------------------
+# systematic fault sweep: for a few fixed plans, every input file x every file-fault kind, write
+# faults at buffer boundaries, interrupts at evenly spaced steps, every git outcome, every listdir
+# error.  Random faulty variants above sample the same space; the sweep makes sure no input file and
+# no region of the output is left without a fault.
+
+
+def sweep_plans(tree, seed, tier):
+    tcs = all_toolchains()
+    plans = []
+
+    def base(n, sel, env):
+        e = {"listdir": {}, "extra_entries": {}, "clock": ["2026-09-26T12:00:00"], "git": "ok:sweep", "stdout_mode": "block", "stdout_bufsize": 4096, "crlf": False}
+        e.update(env)
+        plans.append({
+            "seed": seed,
+            "run": "sweep-%d" % n,
+            "hashseed": HASHSEEDS[n % len(HASHSEEDS)],
+            "selection": dict({"units": [], "constants": [], "io": True, "main_files": [], "version_id": None, "opt_order": ["units", "constants", "noio", "version"]}, **sel),
+            "env": e,
+            "faults": [],
+            "toolchain": {"a": list(tcs[n % len(tcs)])},
+            "probe": {"include_order": None, "api": []},
+        })
+
+    rng = rng_for(seed, "sweep")
+    some_units = rng.sample(tree.units, min(2, len(tree.units)))
+    some_const = rng.sample(tree.constants, min(1, len(tree.constants)))
+    base(0, {"units": some_units, "constants": some_const}, {})
+    base(1, {"units": "ALL", "constants": "ALL", "io": False, "version_id": "sweep"}, {"stdout_mode": "unbuffered", "listdir": {UNITS_DIR: {"shuffle": rng.randrange(1 << 30)}, CONSTANTS_DIR: "reversed"}})
+    if tier == "thorough":
+        base(2, {"units": rng.sample(tree.units, min(5, len(tree.units))), "main_files": rng.sample(tree.public_headers, 2)}, {"stdout_mode": "line", "stdout_bufsize": 65536})
+        base(3, {"units": rng.sample(tree.units, min(3, len(tree.units))), "constants": "ALL"}, {"stdout_bufsize": 1048576, "crlf": True})
+        base(4, {"units": "ALL", "constants": []}, {"stdout_bufsize": 8192, "listdir": {UNITS_DIR: "reversed"}})
+    return plans
+
+
+def sweep_variants(plan, twin, tier):
+    """Concrete fault lists for one sweep plan, derived from what its fault-free twin did."""
+    out = []
+    mode = plan["env"].get("stdout_mode", "block")
+    bufsize = int(plan["env"].get("stdout_bufsize", 4096))
+    n_files = len(twin["opened"])
+    for i in range(n_files):
+        out.append([{"op": "open", "nth": i, "errno": "ENOENT", "from_access": 0}])
+        out.append([{"op": "open", "nth": i, "errno": "ENOENT", "from_access": 1}])
+        out.append([{"op": "open", "nth": i, "errno": "EACCES"}])
+        out.append([{"op": "read", "nth": i, "permille": 500, "errno": "EIO"}])
+        if tier == "thorough":
+            out.append([{"op": "open", "nth": i, "errno": "EMFILE"}])
+            out.append([{"op": "read", "nth": i, "permille": 0, "errno": "EIO"}])
+            out.append([{"op": "read", "nth": i, "permille": 999, "errno": "EIO"}])
+    for i in range(len(twin["listed"])):
+        for en in ("EACCES", "ENOENT", "EIO"):
+            out.append([{"op": "listdir", "nth": i, "errno": en}])
+    n = twin["out_len"]
+    stride = bufsize * (4 if tier == "quick" else 1)
+    offsets = sorted(set([0, 1, max(0, n - 1), max(0, n - 2)] + list(range(stride, n, max(stride, n // 400 if tier == "thorough" else stride)))))
+    for at in offsets:
+        out.append([{"op": "write", "where": "at_byte", "at_byte": at, "kind": "EPIPE", "persistent": True}])
+        out.append([{"op": "write", "where": "at_byte", "at_byte": at, "kind": "EIO", "persistent": False}])
+        if mode != "unbuffered":
+            out.append([{"op": "write", "where": "at_byte", "at_byte": at, "kind": "short"}])
+    k = 24 if tier == "quick" else 200
+    for j in range(k):
+        pm = (1000 * j + 500) // k
+        out.append([{"op": "interrupt", "permille": pm}])
+        out.append([{"op": "memerror", "permille": pm}])
+    variants = [{"variant": "sweep-%d" % i, "faults": f, "env": {}} for i, f in enumerate(out)]
+    for g in GIT_HANDLED + GIT_UNHANDLED + ("empty",):
+        variants.append({"variant": "sweep-git-%s" % g, "faults": [], "env": {"git": g}})
+    return variants
+
+
+def matrix_plans(tree, seed, tier):
+    """Plans whose probe carries every API fragment and is built, in both packagings, under all six
+    compiler x standard configurations (the incidental sample of C20's toolchain clause)."""
+    n = 1 if tier == "quick" else 12
+    tcs = all_toolchains()
+    plans = []
+    for i in range(n):
+        rng = rng_for(seed, "matrix", i)
+        units = rng.sample(tree.units, min(3 if tier == "quick" else rng.choice((2, 4, 6)), len(tree.units)))
+        consts = rng.sample(tree.constants, min(1 if i % 2 == 0 else 2, len(tree.constants)))
+        plans.append({
+            "seed": seed,
+            "run": "matrix-%d" % i,
+            "hashseed": HASHSEEDS[i % len(HASHSEEDS)],
+            "selection": {"units": units, "constants": consts, "io": True, "main_files": [], "version_id": "matrix", "opt_order": ["units", "constants", "noio", "version"]},
+            "env": {"listdir": {}, "extra_entries": {}, "clock": ["2026-09-26T12:00:00"], "git": "ok:matrix", "stdout_mode": "block", "stdout_bufsize": 4096, "crlf": False},
+            "faults": [],
+            "toolchain": {"a": list(tcs[i % len(tcs)]), "matrix": True},
+            "probe": {"include_order": rng.randrange(1 << 30), "api": apisurface.names()},
+        })
+    return plans
+
+
+def singles(tree, seed):
+    """Every unit alone and every constant alone (cheap probe, one toolchain each): the quick
+    tier's guard against selections whose closure is only complete by luck of company."""
+    tcs = all_toolchains()
+    plans = []
+    n = 0
+    for kind, names in (("units", tree.units), ("constants", tree.constants)):
+        for name in names:
+            rng = rng_for(seed, "single", n)
+            plans.append({
+                "seed": seed,
+                "run": "single-%s" % name,
+                "hashseed": HASHSEEDS[n % len(HASHSEEDS)],
+                "selection": {"units": [name] if kind == "units" else [], "constants": [name] if kind == "constants" else [], "io": bool(n % 2), "main_files": [], "version_id": "single", "opt_order": ["units", "constants", "noio", "version"]},
+                "env": {"listdir": {}, "extra_entries": {}, "clock": ["2026-09-26T12:00:00"], "git": "ok:single", "stdout_mode": "block", "stdout_bufsize": 4096, "crlf": False},
+                "faults": [],
+                "toolchain": {"a": list(tcs[n % len(tcs)])},
+                "probe": {"include_order": rng.randrange(1 << 30), "api": []},
+            })
+            n += 1
     return plans
